@@ -58,7 +58,7 @@ func init() {
 		Exhaustive: func(tier string) bool { return false },
 		N: func(tier string) int {
 			if tier == "quick" {
-				return 8000
+				return 40000
 			}
 			return 2 * c03NumSeq() * len(c03Places) * 12
 		},
